@@ -41,6 +41,7 @@ type schemaCase struct {
 	Contract *contract       `json:"contract"`
 	Befores  []beforeCase    `json:"befores"`
 	Reps     int             `json:"reps"`
+	Ev       bool            `json:"ev"` // record events for direction T (only a sample of the cases is traced)
 }
 
 type beforeCase struct {
@@ -154,7 +155,9 @@ func schemaContractDriver(raw json.RawMessage) *Out {
 	if len(out.Viol) > 0 {
 		out.Obs = map[string]any{"sources": sources}
 	}
-	out.Events = append(out.Events, map[string]any{"op": "compile", "ast": json.RawMessage(c.AST), "real": real})
+	if c.Ev {
+		out.Events = append(out.Events, map[string]any{"op": "compile", "ast": json.RawMessage(c.AST), "real": real})
+	}
 	return out
 }
 
@@ -197,6 +200,9 @@ func schemaAppendDriver(raw json.RawMessage) *Out {
 		out.Events = append(out.Events, map[string]any{"op": "version", "c": wireOnly(before)})
 	}
 	out.Events = append(out.Events, map[string]any{"op": "version", "c": wireOnly(after)})
+	if !c.Ev {
+		out.Events = nil
+	}
 	out.Nontrivial = nb > 0 && len(after.Fields)+len(after.Values)+len(after.Methods) > 0
 	if len(out.Viol) > 0 {
 		out.Obs = map[string]any{"sources": sources}
